@@ -186,29 +186,49 @@ impl<E, Ix: IndexType> List<E, Ix> {
         self.suc.iter().map(|x| x.len()).sum()
     }
 
+    /// The index the next node gets; panics if it does not fit the index type.
+    #[track_caller]
+    fn next_node_index(&self) -> usize {
+        let i = self.suc.len();
+        assert!(
+            i <= <Ix as IndexType>::max().index(),
+            "List::add_node: node index {i} does not fit the index type"
+        );
+        i
+    }
+
     /// Adds a new node to the list. This allocates a new `Vec` and then should
     /// run in amortized **O(1)** time.
+    ///
+    /// **Panics** if the list is at the maximum number of nodes for its index type.
+    #[track_caller]
     pub fn add_node(&mut self) -> NodeIndex<Ix> {
-        let i = self.suc.len();
+        let i = self.next_node_index();
         self.suc.push(Vec::new());
         Ix::new(i)
     }
 
     /// Adds a new node to the list. This allocates a new `Vec` and then should
     /// run in amortized **O(1)** time.
+    ///
+    /// **Panics** if the list is at the maximum number of nodes for its index type.
+    #[track_caller]
     pub fn add_node_with_capacity(&mut self, successors: usize) -> NodeIndex<Ix> {
-        let i = self.suc.len();
+        let i = self.next_node_index();
         self.suc.push(Vec::with_capacity(successors));
         Ix::new(i)
     }
 
     /// Adds a new node to the list by giving its list of successors and the corresponding
     /// weigths.
+    ///
+    /// **Panics** if the list is at the maximum number of nodes for its index type.
+    #[track_caller]
     pub fn add_node_from_edges<I: Iterator<Item = (NodeIndex<Ix>, E)>>(
         &mut self,
         edges: I,
     ) -> NodeIndex<Ix> {
-        let i = self.suc.len();
+        let i = self.next_node_index();
         self.suc
             .push(edges.map(|(suc, weight)| WSuc { suc, weight }).collect());
         Ix::new(i)
@@ -327,6 +347,8 @@ pub type UnweightedList<Ix> = List<(), Ix>;
 impl<E, Ix: IndexType> Build for List<E, Ix> {
     /// Adds a new node to the list. This allocates a new `Vec` and then should
     /// run in amortized **O(1)** time.
+    ///
+    /// **Panics** if the list is at the maximum number of nodes for its index type.
     fn add_node(&mut self, _weight: ()) -> NodeIndex<Ix> {
         self.add_node()
     }
